@@ -24,19 +24,20 @@ def run(tier, seed):
     v = vlib.Verdict(PROP, tier, seed, "exploration")
     work = vlib.scratch("c13-")
     ep = os.path.join(work, "scan.ndjson")
-    r = vlib.run_tlc('Scan', dict(constants=dict(MaxList=3, SkipIrregular=True), invariants=['PerPathOnce', 'SizesReadable'], action_constraint='Emit'),
+    maxlist = 3 if tier == "quick" else 4
+    r = vlib.run_tlc('Scan', dict(constants=dict(MaxList=maxlist, SkipIrregular=True), invariants=['PerPathOnce', 'SizesReadable'], action_constraint='Emit'),
                      workers=8, edges_path=ep, timeout=900)
     if r['violated']:
         raise vlib.HarnessTrouble("Scan.tla violates PerPathOnce/SizesReadable:\n" + r['violation_text'][:1500])
     ru = vlib.run_tlc('Scan', dict(constants=dict(MaxList=3, SkipIrregular=True), invariants=['Unique']), workers=8, want_edges=False, expect_violation=True)
-    res = vlib.run_vh(['scan-check', '-edges', ep], timeout=1800)
+    res = vlib.run_vh_sharded(['scan-check', '-edges', ep], 8, timeout=2400)
     for viol in res['violations']:
         v.violation(viol['sig'], viol.get('replay'))
     if res['drift']:
         print("DRIFT C13: %d lists where the real manifest differs from Scan.tla's expected manifest (not a verdict)" % res['drift'])
         v.notes.append(str(res['drift_samples'][:1])[:500])
     v.coverage = dict(evaluations=res['behaviours'], distinct_nontrivial=res['distinct'],
-                      rule="TLC enumerates every list of 1..3 paths over 10 candidates of the universe forest; non-trivial = lists with more than one path",
+                      rule="TLC enumerates every list of 1..%d paths over 10 candidates" % maxlist + " of the universe forest; non-trivial = lists with more than one path",
                       samples=res['samples'][:6], outcomes=res['extra'].get('outcomes'), exhaustive=True,
                       tlc=dict(lists=r['edges'], unique_violated_in_the_design=ru['violated'],
                                note="Unique is violated at design level by the ordinal-prefix scheme (known finding F-C13-1)"),
